@@ -215,6 +215,7 @@ impl RecCtx<'_> {
                 sync_errors: vec![],
                 be_violations: vec![],
                 judge_compact_size: false,
+                track_pins: false,
             };
             for (k, (id, snap)) in cp.psp.iter().enumerate() {
                 w.psp.insert(
